@@ -6,12 +6,14 @@ import (
 )
 
 var commands = map[string]func([]string){
+	"c01": runC01,
 	"c04": runC04,
 	"c05": runC05,
 	"c07": runC07,
 	"c10": runC10,
 	"c11": runC11,
 	"c12": runC12,
+	"c14": runC14,
 	"c15": runC15,
 	"c16": runC16,
 	"c17": runC17,
